@@ -622,7 +622,7 @@ class PathMgr:
     def strip_fresh(self, arr):
         """array as seen from a pre-existing object: stores at freshly allocated ids cannot affect it"""
         while z3.is_app(arr) and arr.decl().kind() == z3.Z3_OP_STORE:
-            idx = arr.arg(1)
+            idx = smt.simp(arr.arg(1))
             if z3.is_int_value(idx) and idx.as_long() >= smt.FRESH_BASE:
                 arr = arr.arg(0)
             else:
